@@ -21,6 +21,10 @@ type solverDef struct {
 	Prep func(q string) string
 }
 
+var z3Seeded = solverDef{Name: "z3-5.1.0", Args: func(f string, t int) []string {
+	return []string{"z3-new", "-smt2", fmt.Sprintf("-T:%d", t), "smt.mbqi=false", "smt.random_seed=7", "sat.random_seed=7", f}
+}}
+
 var solvers = []solverDef{
 	{Name: "z3-5.1.0", Args: func(f string, t int) []string {
 		return []string{"z3-new", "-smt2", fmt.Sprintf("-T:%d", t), "smt.mbqi=false", f}
@@ -207,14 +211,18 @@ func solveOne(e *Enc, o *Obligation, idx int, opts solveOpts) {
 		file  string
 	}
 	ctx, cancel := context.WithCancel(context.Background())
-	ch := make(chan stageRes, 3)
+	ch := make(chan stageRes, 4)
 	n := 1
 	go func() { ch <- stageRes{runSolverCtx(ctx, solvers[0], fileB, opts.TimeoutS), "", fileB} }()
 	if fileI != "" {
 		n += 2
 		go func() { ch <- stageRes{runSolverCtx(ctx, solvers[0], fileI, opts.TimeoutS), "/instantiated", fileI} }()
-		// the instance set is quantifier-free: the second solver is often quicker on bit-vector goals
+		// the instance set is quantifier-free: the second solver is often quicker on bit-vector goals,
+		// and z3's run time on it is heavy-tailed (0.5 s or a time-out for the same query with other
+		// symbol names or another seed): a second z3 with another seed runs beside the first
 		go func() { ch <- stageRes{runSolverCtx(ctx, solvers[1], fileI, opts.TimeoutS), "/instantiated2", fileI} }()
+		n++
+		go func() { ch <- stageRes{runSolverCtx(ctx, z3Seeded, fileI, opts.TimeoutS), "/instantiated2", fileI} }()
 	}
 	var b, ai solverAnswer
 	for i := 0; i < n; i++ {
